@@ -46,6 +46,7 @@ type LiveResult struct {
 	LeaderInD  bool
 	NonTrivial bool
 	Injected   int
+	NoTimer    int // deciders that had no armed election timer at the stabilisation point
 }
 
 func satShl(base uint64, v uint64) uint64 {
@@ -121,8 +122,7 @@ func RunLive(c LiveCase) (*World, LiveResult) {
 			prepared = true
 		}
 		if !n.Sch.Active {
-			res.Discarded = "no-active-timer"
-			return w, res
+			res.NoTimer++ // a decider without an armed election timer never times out; whether the others get along without it is judged like everything else
 		}
 	}
 	if res.Vmax > 24 {
@@ -139,6 +139,11 @@ func RunLive(c LiveCase) (*World, LiveResult) {
 	armSeen := map[int]int{}
 	for _, i := range res.D {
 		n := w.Nodes[i]
+		if !n.Sch.Active {
+			expiry[i] = 1 << 62
+			armSeen[i] = len(n.Sch.Armings)
+			continue
+		}
 		full := satShl(liveBase, n.V())
 		frac := 1000
 		if i < len(c.R) && c.R[i] >= 1 && c.R[i] <= 1000 {
@@ -244,8 +249,8 @@ func RunLive(c LiveCase) (*World, LiveResult) {
 				best = i
 			}
 		}
-		if best < 0 {
-			break
+		if best < 0 || expiry[best] >= 1<<62 {
+			break // nobody has a timer armed: nothing will ever happen
 		}
 		if expiry[best] > now {
 			now = expiry[best]
